@@ -4,3 +4,4 @@ import PysersicModel.Scalar
 import PysersicModel.Gen.Consts
 import PysersicModel.Opt.EarlyStop
 import PysersicModel.IO.SkyEstimate
+import PysersicModel.IO.Validate
